@@ -77,6 +77,7 @@ def main():
             meta["recheck_error"] = "patch does not apply to the current tree: " + bad_patch[sid][:200]
         else:
             meta["caught_by"] = res.get(sid, {}).get("caught_by", {})
+            meta.pop("analysis_errors", None)
             if res.get(sid, {}).get("analysis_errors"):
                 meta["analysis_errors"] = res[sid]["analysis_errors"]
             meta.pop("recheck_error", None)
